@@ -18,6 +18,16 @@ Line driver for the `DebuggingRecorder` model (component `debug`).
   debug sc <tid> cur <describe…|register…|cinc…|…>  a call through `with_recorder` / a macro; answers the recorder
                                                   reached (`r<rid>` | `noop`)
 
+  debug conc <shard count> <progs> <sched>        several threads on ONE recorder under a schedule (`Model/DebuggingConc`):
+                                                  progs = per-thread programs, `,`-separated; a program = calls joined
+                                                  by `+` (`-` = no call); a call = `r/<c|g|h>/<class>:<hash>` (register;
+                                                  key as in `registry run`), `u/<handle index>/<ci|ca><u64>|<gs|ga|hr><int>`
+                                                  (update through the thread's n-th handle; ints = numerators of n/1024),
+                                                  `s` (snapshot); sched = thread ids joined by `.`.
+                                                  → point labels | per-thread snapshots | snapshot at the end
+                                                  snapshot = entries `<kind>/<class>/<c<n>|g<int>|h<ints joined by _>>`
+                                                  joined by `;` (`empty` if none), a thread's snapshots joined by `+`
+
 The global recorder has id `globalId` = 1000; it survives `debug new` (a process has one global recorder).
 `tid` (the thread issuing the call) must be a number; the direct calls of the model do not depend on it.
 Entry: `<c|g|h>/<name>/<labels as shown>/<unit|~>/<desc|~>/<value>`; histogram values in the order shown (newest block first, each block in record order).
@@ -26,6 +36,8 @@ import MetricsVerif.Driver.Util
 import MetricsVerif.Driver.C08
 import MetricsVerif.Driver.Prom
 import MetricsVerif.Model.Debugging
+import MetricsVerif.Driver.Registry
+import MetricsVerif.Model.DebuggingConc
 
 namespace MetricsVerif.Driver.Debugging
 open MetricsVerif.Driver MetricsVerif.Prom MetricsVerif.PromFmt MetricsVerif.Debugging MetricsVerif
@@ -112,8 +124,74 @@ def parseOp (args : List String) : Option Debugging.Op :=
   | ["hrec", n, l, v] => do pure (.hrec (← Prom.keyToks n l) (← Prom.valTok v))
   | _ => none
 
+/-! ### `debug conc`: the concurrent machine -/
+
+namespace Conc
+open MetricsVerif.DebuggingConc
+
+abbrev DKey := Registry.DKey
+
+def intTok (s : String) : Option Int :=
+  if s.startsWith "-" then (s.drop 1).toString.toNat?.map (fun n => -(Int.ofNat n)) else s.toNat?.map Int.ofNat
+
+def updTok (s : String) : Option Upd :=
+  let tag := (s.take 2).toString
+  let rest := (s.drop 2).toString
+  match tag with
+  | "ci" => do let n ← rest.toNat?; if n < DebuggingConc.two64 then pure (.cinc n) else none
+  | "ca" => do let n ← rest.toNat?; if n < DebuggingConc.two64 then pure (.cabs n) else none
+  | "gs" => (intTok rest).map .gset
+  | "ga" => (intTok rest).map .gadd
+  | "hr" => (intTok rest).map .hrec
+  | _ => none
+
+def callTok (s : String) : Option (CCall DKey) :=
+  match s.splitOn "/" with
+  | ["r", kd, k] => do pure (.register (← Registry.kindTok kd) (← Registry.keyTok k))
+  | ["u", h, u] => do pure (.update (← h.toNat?) (← updTok u))
+  | ["s"] => some .snapshot
+  | _ => none
+
+/-- an update must go through a handle the thread has obtained by then -/
+def progOk : Nat → List (CCall DKey) → Bool
+  | _, [] => true
+  | n, .register _ _ :: rest => progOk (n + 1) rest
+  | n, .update h _ :: rest => decide (h < n) && progOk n rest
+  | n, .snapshot :: rest => progOk n rest
+
+def progTok (s : String) : Option (List (CCall DKey)) := do
+  let p ← if s == "-" then some [] else (s.splitOn "+").mapM callTok
+  if progOk 0 p then some p else none
+
+def showKind : Registry.Kind → String
+  | .counter => "c" | .gauge => "g" | .histogram => "h"
+
+def showCell : Cell → String
+  | .counter n => s!"c{n}"
+  | .gauge v => s!"g{v}"
+  | .hist vs => "h" ++ "_".intercalate (vs.map toString)
+
+def showSnap (es : List (SnapEntry DKey)) : String :=
+  if es.isEmpty then "empty" else ";".intercalate (es.map (fun e => s!"{showKind e.1}/{e.2.1.cls}/{showCell e.2.2}"))
+
+def runTok (count progs sched : String) : Option String := do
+  let c ← count.toNat?
+  if c = 0 then none else
+  let progs ← listTok progTok progs
+  let sched ← Registry.schedTok sched
+  let (s, labels) := sched.foldl (fun (acc : CSys DKey × List String) tid =>
+      let lbl := match acc.1.threads[tid]? with | some t => t.pc.label | none => "nothread"
+      (DebuggingConc.step Registry.dko acc.1 tid, acc.2 ++ [lbl])) (CSys.init c progs, [])
+  let per := showList (fun (t : CThread DKey) =>
+      if t.snaps.isEmpty then "." else "+".intercalate (t.snaps.map showSnap)) s.threads
+  let pcs := showList (fun (t : CThread DKey) => t.pc.label) s.threads
+  pure s!"{".".intercalate labels} | {per} | {showSnap (DebuggingConc.snapshot Registry.dko s).2} | {pcs}"
+
+end Conc
+
 def handle (st : Option DSt) (args : List String) : Option (Option DSt × String) :=
   match args with
+  | ["conc", count, progs, sched] => do pure (st, ← Conc.runTok count progs sched)
   | ["new", n] => do
     let n ← n.toNat?
     if n = 0 ∨ n > globalId then none else
